@@ -450,23 +450,24 @@ fn judge_inner(h: &History, out: &Outcome, stats: &mut JudgeStats) -> Vec<Violat
     }
     // walk the history with the reference model uri -> latest text
     let mut latest: Vec<Option<String>> = vec![None; h.uris.len()];
-    let mut pub_i = 0usize;
+    // publishDiagnostics notifications are matched per document, in order: the n-th one for a URI belongs to the n-th
+    // open/change of that document (how publications for different documents interleave is not the property's business)
+    let mut pubs_by_uri: BTreeMap<String, std::collections::VecDeque<Value>> = BTreeMap::new();
+    for p in &publishes {
+        pubs_by_uri.entry(p["uri"].as_str().unwrap_or("").to_string()).or_default().push_back(p.clone());
+    }
     for (i, s) in steps.iter().enumerate() {
         let uri = &h.uris[s.doc()];
         match s {
             Step::Open { doc, text } | Step::Change { doc, text, .. } => {
                 latest[*doc] = Some(text.clone());
-                let Some(p) = publishes.get(pub_i) else {
+                let Some(p) = pubs_by_uri.get_mut(uri.as_str()).and_then(|q| q.pop_front()) else {
                     if !crashed {
                         v.push(Violation { class: "diagnostics_missing".into(), site: analyzer_site(out), detail: format!("no publishDiagnostics for step {i}"), step: i });
                     }
-                    break;
-                };
-                pub_i += 1;
-                if p["uri"].as_str() != Some(uri.as_str()) {
-                    v.push(Violation { class: "diagnostics_wrong_uri".into(), site: String::new(), detail: format!("{} vs {uri}", p["uri"]), step: i });
                     continue;
-                }
+                };
+                let p = &p;
                 // 3. published diagnostics equal the command-line check on the latest text
                 if let Some(exp) = expected_diagnostics(text) {
                     stats.diagnostics_compared += 1;
@@ -669,6 +670,12 @@ fn judge_inner(h: &History, out: &Outcome, stats: &mut JudgeStats) -> Vec<Violat
                     }
                 }
             }
+        }
+    }
+    // a publication nobody asked for: more notifications for a URI than that document had opens and changes
+    for (uri, q) in &pubs_by_uri {
+        if !q.is_empty() {
+            v.push(Violation { class: "unexpected_publish".into(), site: String::new(), detail: format!("{} publishDiagnostics for {uri} beyond its opens and changes", q.len()), step: usize::MAX });
         }
     }
     v
